@@ -320,3 +320,17 @@ const (
 	VerifSuspicionThreshold = suspicionThreshold
 	VerifCompactThreshold   = compactThreshold
 )
+
+// Window returns the arrival window the detector keeps for the node.
+func (a *VerifAccrual) Window(nodeID string) (intervals []int64, index int, isFull bool, sum int64, last time.Time, ok bool) {
+	a.d.mu.Lock()
+	defer a.d.mu.Unlock()
+
+	w, found := a.d.windows[nodeID]
+	if !found {
+		return nil, 0, false, 0, time.Time{}, false
+	}
+	intervals = make([]int64, len(w.intervals.intervals))
+	copy(intervals, w.intervals.intervals)
+	return intervals, w.intervals.index, w.intervals.isFull, w.intervals.sum, w.lastTimestamp, true
+}
